@@ -63,6 +63,10 @@ CLAIM = {
             'flattened) and R3 (arguments snapshotted and compared after the call and after later calls, outputs never '
             'alias inputs, each other or internal buffers) are covered by CORRESPONDENCE and ORACLES only: the model '
             'is a pure function of the logical values by construction, which is what the code is compared against. '
+            'Tap profiles are also given reversed, shuffled and with paths that collide after rounding to the '
+            'sampling grid (memory <= cp): the reported taps must sit on the sorted distinct samples with the merged '
+            'powers (first-principles check in onetap / onetap_history / the channel correspondence), an exception on '
+            'such a profile is a failure (channel-raises:<order>-profile). '
             'Python lists are not accepted by the API (ndarray only). Each class has its own required branches '
             '(R*:corr, R*:oracle*) and failure classes computed from the input (R1:param-<type>, R1:array-<dtype>:*, '
             'R2:<layout>:*, R3:input-mutated:<call>:<what>, R4:*, ...,notch<=1e-3 / ,input-scale<1e-6 qualifiers).',
@@ -294,13 +298,18 @@ def o_onetap_history(case):
             return 'history-state', 'after step %d' % k
         rel = relation(built, cur)
         x = cx(st['x'])
+        kind = profile_kind(st['delays'])
+        exp_idx, _ = expected_discretisation(st['delays'], st['powers_dB'])
         try:
             ch = make_static_channel(st['delays'], st['powers_dB'], cx(st['draw']))
-        except Exception:
-            continue                                   # profile defect: reported by `onetap`
-        memory = int(ch.num_taps_with_padding) - 1
+        except Exception as e:
+            return 'history-channel-raises:%s-profile' % kind, 'step %d delays %r: %s' % (k, st['delays'], type(e).__name__)
+        memory = exp_idx[-1]
         if memory > cur[1] or memory >= cur[0]:
             continue
+        if [int(v) for v in np.asarray(ch.channel_profile.tap_delays)] != exp_idx:
+            return 'profile-discretisation:%s-profile' % kind, 'step %d: taps on %r, paths %r fall on %r' % (
+                k, [int(v) for v in np.asarray(ch.channel_profile.tap_delays)], st['delays'], exp_idx)
         fresh = o.OFDM(*cur)
         fresh_eq = o.OfdmOneTapEqualizer(fresh)
         try:
@@ -310,7 +319,8 @@ def o_onetap_history(case):
             dem = obj.demodulate(np.array(rx[:tx.size], copy=True))
             out = eqz.equalize_data(np.array(dem, copy=True), ir)
         except Exception as e:
-            return 'history-raises:' + rel, 'step %d, configuration %r: %s: %s' % (k, cur, type(e).__name__, str(e)[:150])
+            return 'history-raises:' + rel + ('' if kind == 'sorted' else ',%s-profile' % kind), \
+                'step %d, configuration %r, delays %r: %s: %s' % (k, cur, st['delays'], type(e).__name__, str(e)[:150])
         tx2 = fresh.modulate(x.copy())
         dem2 = fresh.demodulate(np.array(rx[:tx.size], copy=True))
         out2 = fresh_eq.equalize_data(np.array(dem2, copy=True), ir)
@@ -436,19 +446,35 @@ def o_onetap(case):
     except Exception as e:
         return 'channel-construction:' + profile_class(case['delays'], case['powers_dB']), \
             '%s: %s' % (type(e).__name__, str(e)[:200])
-    memory = int(ch.num_taps_with_padding) - 1
+    Ts = case.get('Ts', 1.0)
+    kind = profile_kind(case['delays'])
+    exp_idx, exp_pow = expected_discretisation(case['delays'], case['powers_dB'])
+    memory = exp_idx[-1]
     cls = chan_class(case, memory)
+    pq = '' if kind == 'sorted' else ',%s-profile' % kind
     if memory > cp:
         return None            # outside the property
     tx = obj.modulate(x.copy())
-    rx = ch.corrupt_data(np.array(tx, copy=True))
-    ir = ch.get_last_impulse_response()
+    try:
+        rx = ch.corrupt_data(np.array(tx, copy=True))
+        ir = ch.get_last_impulse_response()
+    except Exception as e:
+        return 'channel-raises:%s-profile' % kind, 'corrupt_data on delays %r: %s: %s' % (case['delays'], type(e).__name__, str(e)[:120])
+    got_idx = [int(v) for v in np.asarray(ir.tap_indexes_sparse)]
+    if got_idx != exp_idx or int(ch.num_taps_with_padding) - 1 != memory:
+        return 'profile-discretisation:%s-profile' % kind, 'taps reported on samples %r, the paths %r fall on %r' % (
+            got_idx, case['delays'], exp_idx)
+    if tx.size:
+        gains = np.resize(cx(case['draw']), len(exp_idx)) * np.sqrt(np.array(exp_pow))
+        rep = np.asarray(ir.tap_values_sparse)[:, 0]
+        if float(np.max(np.abs(rep - gains))) > 1e-9 * float(np.max(np.abs(gains))):
+            return 'profile-discretisation-powers:%s-profile' % kind, 'reported tap values differ from draw * sqrt(merged power)'
     # the channel really is the time-invariant convolution with the reported taps
     dense = np.zeros(memory + 1, dtype=complex)
     dense[np.asarray(ir.tap_indexes_sparse, dtype=int)] = np.asarray(ir.tap_values_sparse)[:, 0] if tx.size else 0
     ref = direct_convolution(dense, tx)
     if rx.shape != ref.shape or (ref.size and float(np.max(np.abs(rx - ref))) > 1e-9 * float(np.max(np.abs(ref)))):
-        return 'channel-not-convolution:' + cls, 'corrupt_data differs from direct convolution with the reported taps'
+        return 'channel-not-convolution:' + cls + pq, 'corrupt_data differs from direct convolution with the reported taps'
     # exact recovery needs H[k] != 0 on the USED carriers; the comparison is relative to the input scale and to the
     # conditioning max|H| / min|H_used| of the division (R5 deep notches, R6 scaled channels)
     Hs = np.array([sum(dense[d] * np.exp(-2j * np.pi * ((d * k) % fft) / fft) for d in range(memory + 1))
@@ -461,7 +487,7 @@ def o_onetap(case):
     cond = hmax / hmin
     qual = ''
     if cls != 'memory==fft':                          # the known-finding class keeps its exact name
-        qual = (',notch<=1e-3' if cond >= 1e3 else '') + scale_class(x) + scale_class(dense)
+        qual = (',notch<=1e-3' if cond >= 1e3 else '') + scale_class(x) + scale_class(dense) + pq
     try:
         dem = obj.demodulate(np.array(rx[:tx.size], copy=True))
         eq = o.OfdmOneTapEqualizer(obj).equalize_data(dem, ir)
@@ -848,7 +874,7 @@ def gen_length(rng, used):
     return rng.randint(1, 4 * used)
 
 
-def gen_profile(rng, max_memory, ntaps_max=6, force=False):
+def gen_profile(rng, max_memory, ntaps_max=6, force=False, order=None):
     """distinct integer delays starting anywhere in [0, max_memory], with the last one = memory
     (`force`: memory = max_memory and at least two taps when there is room)"""
     memory = max_memory if force else (rng.randint(0, max_memory) if rng.chance(0.7) else max_memory)
@@ -858,7 +884,74 @@ def gen_profile(rng, max_memory, ntaps_max=6, force=False):
     delays = sorted(others[:k] + [memory])
     powers = [round(-rng.uniform(0, 20), 3) for _ in delays]
     draw = [[rng.gauss(), rng.gauss()] for _ in delays]
+    if order is None and rng.chance(0.3):
+        order = rng.choice(PROFILE_ORDERS)
+    if order:
+        delays, powers = reorder_profile(rng, delays, powers, order)
     return delays, powers, draw
+
+
+PROFILE_ORDERS = ['reversed', 'unsorted', 'colliding']
+
+
+def reorder_profile(rng, delays, powers, order):
+    """the same multipath profile listed in another order (the API takes the paths in any order):
+    'reversed' - decreasing delays; 'unsorted' - shuffled (largest delay anywhere); 'colliding' - extra paths that
+    round to the sample of an existing, NON-adjacent path (fractional delays +-0.3), largest delay listed last half
+    of the time. The discretised taps (sorted distinct samples, powers of merged paths summed) stay the same set."""
+    d, p = list(delays), list(powers)
+    if order == 'reversed':
+        return d[::-1], p[::-1]
+    if order == 'unsorted':
+        idx = list(range(len(d)))
+        for _ in range(5):
+            rng.shuffle(idx)
+            if [d[i] for i in idx] != sorted(d):
+                break
+        return [d[i] for i in idx], [p[i] for i in idx]
+    # colliding
+    extra = [(float(v) + rng.choice([-0.3, 0.0, 0.3]) if v > 0 else float(v) + rng.choice([0.0, 0.3]), round(-rng.uniform(0, 20), 3))
+             for v in [rng.choice(d) for _ in range(rng.randint(1, 2))]]
+    items = [(float(v), q) for v, q in zip(d, p)]
+    last = items[-1]
+    body = items[:-1] + extra
+    rng.shuffle(body)
+    if rng.chance(0.5):
+        out = body + [last]                       # the largest delay stays last
+    else:
+        out = body + [last]
+        rng.shuffle(out)
+    # make sure a collision is not adjacent in at least one place when there is room
+    if len(out) >= 3:
+        r = [int(round(v)) for v, _ in out]
+        for i in range(len(out) - 1):
+            if r[i] == r[i + 1]:
+                j = (i + 2) % len(out)
+                out[i + 1], out[j] = out[j], out[i + 1]
+                break
+    return [v for v, _ in out], [q for _, q in out]
+
+
+def profile_kind(delays, Ts=1.0):
+    """class of a profile, computed from the listed delays"""
+    r = [int(np.round(v / Ts)) for v in delays]
+    if len(set(r)) < len(r):
+        return 'colliding'
+    if r == sorted(r):
+        return 'sorted'
+    if r == sorted(r, reverse=True):
+        return 'reversed'
+    return 'unsorted'
+
+
+def expected_discretisation(delays, powers_db, Ts=1.0):
+    """first principles: the taps sit on the sorted distinct sample indexes round(delay / Ts); the power of a tap is
+    the sum of the (linear) powers of the paths falling on it, normalised to total power one"""
+    r = [int(np.round(v / Ts)) for v in delays]
+    idx = sorted(set(r))
+    lin = [10.0 ** (q / 10.0) for q in powers_db]
+    tot = sum(lin)
+    return idx, [sum(l for ri, l in zip(r, lin) if ri == i) / tot for i in idx]
 
 
 BOUNDARY_SIZES = [2, 3, 4, 5, 7, 8, 9, 15, 16, 17, 25, 31, 32, 33, 49, 63, 64, 65]      # 2^k, 2^k +- 1, p^2, odd / even
@@ -1173,17 +1266,23 @@ def corr_channel(ctx, b, i, fmax):
             delays, powers, draw = gen_profile(rng, cp + 1, force=True)       # one sample beyond the prefix
         else:
             delays, powers, draw = gen_profile(rng, rng.choice([cp, cp, fft, fft + 2, max(0, cp - 1)]))
+        if mode in (4, 6, 7):
+            # the same kind of profile listed reversed / shuffled / with paths colliding after rounding (memory <= cp)
+            order = {4: 'reversed', 6: 'unsorted', 7: 'colliding'}[mode]
+            delays, powers, draw = gen_profile(rng, max(1, min(cp, fft - 1)) if cp else 0, force=True, order=order)
         static = rng.chance(0.5) if mode not in (2, 5) else mode == 2
-        try:
-            if static:
-                ch = make_static_channel(delays, powers, cx(draw))
-            else:
-                ch = make_rayleigh_channel(delays, powers, rng.u64())
-        except ValueError:
-            ctx.branch('channel:profile-not-constructible')     # reported by the `onetap` oracle, not here
-            return
+        kind = profile_kind(delays)
+        exp_idx, _ = expected_discretisation(delays, powers)
+        # every profile is a legal argument: an exception here is a disagreement with the model (which has none)
+        if static:
+            ch = make_static_channel(delays, powers, cx(draw))
+        else:
+            ch = make_rayleigh_channel(delays, powers, rng.u64())
         rx = ch.corrupt_data(np.array(tx, copy=True))
         ir = ch.get_last_impulse_response()
+        ctx.corr('TdlChannelProfile.discretisation', {'delays': delays, 'kind': kind},
+                 [int(v) for v in np.asarray(ir.tap_indexes_sparse)], exp_idx, key=('disc', i))
+        ctx.branch('profile:%s:corr' % kind)
         d = [int(v) for v in np.asarray(ir.tap_indexes_sparse)]
         vals = np.asarray(ir.tap_values_sparse, dtype=complex)
         ns = int(vals.shape[1])
@@ -1373,10 +1472,7 @@ def corr_pair_history(ctx, b, case, tag):
         ops.append('set:%d:%d:%s' % (f, c, 'none' if u is None else u))
         checks.append(lambda r, flag=flag: ctx.corr('pair.set_parameters', tag, flag, r))
         ctx.branch('pair:set:' + flag.split(':')[0])
-        try:
-            ch = make_static_channel(st['delays'], st['powers_dB'], cx(st['draw']))
-        except ValueError:
-            continue
+        ch = make_static_channel(st['delays'], st['powers_dB'], cx(st['draw']))     # any exception = disagreement (guarded)
         x = cx(st['x'])
         ps = float(obj._calculate_power_scale())
         sf = core.f2s(math.sqrt(ps) if ps > 0 else float('nan'))
@@ -1624,6 +1720,23 @@ def oracles(ctx, small, nrand, fmax, nchan):
         case = {'fft': fft, 'cp': cp, 'used': used, 'x': gen_symbols(rng, n, integer=False),
                 'delays': delays, 'powers_dB': powers, 'draw': draw}
         run_oracle(ctx, 'onetap', case, key=('ot', i))
+    # the same profiles listed in another order: reversed / shuffled / colliding after rounding (memory <= cp)
+    for i in range(max(12, nchan // 4)):
+        order = PROFILE_ORDERS[i % 3]
+        fft, cp, used = gen_config(rng, min(fmax, 48))
+        while cp < 2 or fft < 3:
+            fft, cp, used = gen_config(rng, min(fmax, 48))
+        delays, powers, draw = gen_profile(rng, min(cp, fft - 1), force=True, order=order)
+        n = max(1, gen_length(rng, used))
+        case = {'fft': fft, 'cp': cp, 'used': used, 'x': gen_symbols(rng, n, integer=False),
+                'delays': delays, 'powers_dB': powers, 'draw': draw}
+        run_oracle(ctx, 'onetap', case, key=('ot-order', i))
+        ctx.branch('profile:%s:oracle' % profile_kind(delays))
+    for fixed in ([2, 0, 2, 5], [5, 2, 0], [0, 3, 1], [2.2, 0, 1.8, 5], [4, 4.3, 0]):
+        case = {'fft': 16, 'cp': 6, 'used': 10, 'x': gen_symbols(rng, 13, integer=False), 'delays': fixed,
+                'powers_dB': [-1.0, -3.0, -2.0, -6.0][:len(fixed)], 'draw': [[1.0, 0.5], [-0.7, 0.2], [0.3, -0.9], [0.5, 0.5]]}
+        run_oracle(ctx, 'onetap', case, key=('ot-fixed', tuple(fixed)))
+        ctx.branch('profile:%s:oracle' % profile_kind(fixed))
     # the known corner, always
     run_oracle(ctx, 'onetap', WITNESS_FULL_MEMORY, key='witness-full-memory')
     # one OFDM object, one long-lived equaliser, 1-5 re-configurations
@@ -1654,6 +1767,8 @@ def check(ctx):
                              'channel:static', 'channel:time-varying', 'channel:memory<=cp', 'channel:memory>cp',
                              'freq:cropped', 'demod:error:ValueError', 'eq:empty:ok', 'eq:baddata:error',
                              'pair:history', 'pair:roundtrip', 'pair:set:ok', 'pair:set:error',
+                             'profile:reversed:corr', 'profile:unsorted:corr', 'profile:colliding:corr',
+                             'profile:reversed:oracle', 'profile:unsorted:oracle', 'profile:colliding:oracle',
                              'R1:corr', 'R2:corr', 'R3:corr', 'R4:corr', 'R5:corr', 'R5:corr:deep-notch', 'R6:corr', 'R7:corr',
                              'R1:oracle:param', 'R1:oracle:array', 'R2:oracle', 'R3:oracle', 'R4:oracle', 'R5:oracle:sizes',
                              'R5:oracle:single-path', 'R5:oracle:zero-input', 'R5:oracle:deep-notch',
